@@ -24,6 +24,7 @@ EXPLANATION = (
     "were re-inserted; R3 that procedure headings are assembled by proc_line with result/bind "
     "clauses and arguments in declaration order. Decides these clauses, not textual fidelity of every "
     "declaration."
+    ' R4: literal case is preserved (masking before case folding) and argument attributes are complete. R5: the kind/len selector regexes capture the whole expression (E2). R6: relurl rewrites links and absolute paths only.'
 )
 ASSUMPTIONS = [
     "escaping filters are e/escape/forceescape/striptags/urlencode",
